@@ -209,6 +209,10 @@ class SessionReplayer:
             cm = self.amp.temp_total_gls_one()
         elif kind == "temp_config":
             cm = temp_config(CFG_KEY, arg)
+        elif kind == "temp_var":
+            from tf_pwa.experimental.factor_system import temp_var
+
+            cm = temp_var(self.vm)
         else:
             raise ValueError(kind)
         cm.__enter__()
